@@ -497,6 +497,12 @@ def race_signature(r, ranges, proto):
         for what, lo, hi in ranges:
             if lo <= a["addr"] < hi:
                 hit.add(what.split("-")[0])
+    # the array being filled by unistring.Scan called from importedString.scan IS the memo array (published only through i.u);
+    # with the unsynchronised protocol two scans can each allocate one, and only the last survives to be listed by the harness
+    for a in r["accesses"]:
+        fr = a["frames"]
+        if "write" in a["what"] and len(fr) >= 2 and fr[0].endswith("unistring.Scan") and fr[1] == "goja.importedString.scan":
+            hit.add("imported")
     if hit == {"imported"}:
         return (KNOWN_SIG if proto != "once" else "importedString-memo-race-despite-once-protocol"), tops
     if hit == {"template"}:
@@ -522,6 +528,7 @@ def run_sharded(ctx, exe, cases, shards, timeout):
     answers = [None] * len(cases)
     races = []
     problems = []
+    fatals = []
 
     def work(idx):
         rc, out, err = run_harness(ctx, exe, [cases[i] for i in idx], timeout)
@@ -538,13 +545,22 @@ def run_sharded(ctx, exe, cases, shards, timeout):
                 else:
                     answers[i] = {"ok": False, "info": "no answer (harness rc=%d): %s" % (rc, err[-400:])}
             if rc not in (0, 66):
-                problems.append("harness rc=%d: %s" % (rc, err[-600:]))
+                # a Go runtime fatal error ("concurrent map writes", …) kills the process: attribute it to the case that was running
+                fm = re.search(r"^fatal error: (.*)$", err, re.M)
+                last = 0
+                for mm in re.finditer(r"^@@CASE (\d+) ", err, re.M):
+                    last = int(mm.group(1))
+                if fm and 1 <= last <= len(idx):
+                    tail = err[fm.start():fm.start() + 2500]
+                    fatals.append({"gcase": idx[last - 1], "msg": fm.group(1).strip(), "text": tail})
+                else:
+                    problems.append("harness rc=%d: %s" % (rc, err[-600:]))
             reps, rngs = parse_stderr(err)
             for r in reps:
                 r["gcase"] = idx[r["case"] - 1] if 1 <= r["case"] <= len(idx) else None
                 r["ranges"] = rngs.get(r["case"], [])
                 races.append(r)
-    return answers, races, problems
+    return answers, races, problems, fatals
 
 
 def proto_from_generated():
@@ -566,7 +582,7 @@ def proto_from_generated():
 
 def rerun_signatures(ctx, exe, variants, proto, timeout=240):
     """run the variant cases in one sharded batch; -> list (aligned) of {signature: report} seen for each"""
-    answers, races, problems = run_sharded(ctx, exe, variants, min(8, len(variants)), timeout)
+    answers, races, problems, _ = run_sharded(ctx, exe, variants, min(8, len(variants)), timeout)
     res = [dict() for _ in variants]
     for r in races:
         if r.get("gcase") is None:
@@ -622,6 +638,7 @@ def main(ctx):
         if out and not out[0].startswith("cfg=" + proto):
             ctx.obligation("corr:proto-classification", "correspondence", False, "driver says %s, python says %s" % (out[0], proto))
 
+    ctx.log("lean done; building harness (-race)")
     # 2. harness (race build)
     exe = ctx.go_build(race=True)
     if exe is None:
@@ -629,9 +646,9 @@ def main(ctx):
 
     # 3. cases
     corpus = load_corpus()
-    n_prog = 48 if quick else 900
-    n_prim = 40 if quick else 700
-    n_scan = 160 if quick else 3000
+    n_prog = 36 if quick else 600
+    n_prim = 24 if quick else 450
+    n_scan = 120 if quick else 2000
     n_memo = 300 if quick else 4000
     cases = []
     meta = []
@@ -665,9 +682,11 @@ def main(ctx):
         meta.append({"src": "prim"})
 
     shards = 6 if quick else 14
+    ctx.log("running %d cases in %d shards" % (len(cases), shards))
     t0 = time.time()
-    answers, races, problems = run_sharded(ctx, exe, cases, shards, timeout=240 if quick else 2400)
+    answers, races, problems, fatals = run_sharded(ctx, exe, cases, shards, timeout=240 if quick else 2400)
     ctx.stats["harness_wall_s"] = round(time.time() - t0, 1)
+    ctx.log("harness done: %d race reports" % len(races))
     ctx.obligation("corr:harness-ran", "correspondence", not problems, "; ".join(problems)[:1500])
 
     # 4. judge answers
@@ -676,7 +695,11 @@ def main(ctx):
     foreign_bad, scan_lines, scan_idx = [], [], []
     tv_lines, tv_idx = [], []
     result_viol = []
+    n_lost = 0
     for i, (c, a, m) in enumerate(zip(cases, answers, meta)):
+        if str(a.get("info", "")).startswith("no answer"):
+            n_lost += 1          # the harness process died before this case (reported through `fatals` / `problems`)
+            continue
         ctx.count()
         kinds[c["kind"]] = kinds.get(c["kind"], 0) + 1
         if c["kind"] == "foreign":
@@ -696,6 +719,8 @@ def main(ctx):
                 continue
             if not a.get("ok"):
                 result_viol.append((i, "result-differs-from-isolated-run", a))
+            if str(a.get("info", "")).startswith("timeouts="):
+                ctx.stats["watchdog_timeouts"] = ctx.stats.get("watchdog_timeouts", 0) + int(a["info"].split("=")[1])
             base = str(a.get("base", ""))
             if c["kind"] == "prim":
                 for r in a.get("info", "").split(","):
@@ -710,6 +735,7 @@ def main(ctx):
             if m.get("expect") is not None and base != m["expect"]:
                 ctx.obligation("corr:corpus-expect:%d" % i, "correspondence", False, "corpus case result %r, expected %r" % (base[:200], m["expect"][:200]))
     ctx.stats["cases_by_kind"] = kinds
+    ctx.stats["cases_lost_to_harness_abort"] = n_lost
     ctx.stats["shared_value_representations"] = reprs
     ctx.stats["goroutines"] = "2..8 (quick)" if quick else "2..16"
     for i in (next((j for j, c in enumerate(cases) if c["kind"] == k), None) for k in ("prog", "prim", "foreign", "scan")):
@@ -731,11 +757,19 @@ def main(ctx):
             bad_prop.append((c, got, want))
     ctx.obligation("corr:toValue-object-decision(exhaustive %d cells)" % len(tv_idx), "correspondence", not bad_model and model_tv is not None or (not model_ok and not bad_prop),
                    "; ".join("%s/%s/same=%s impl=%s model=%s" % (c["obj"], c["path"], c["same"], g, w) for c, g, w in bad_model[:6]) or ("model driver unavailable" if model_tv is None else ""))
+    accepted = {}
     for c, got, want in bad_prop:
         foreign = (not c["same"]) and c["obj"] not in ("nilptr", "selfnil", "noruntime")
         if foreign and got != "typeError":
-            ctx.violation("foreign-object-accepted:%s:%s" % (c["path"], c["obj"]), "Object of another Runtime passed through %s was not rejected with TypeError (got %s)" % (c["path"], got),
-                          {"kind": "input", "case": c, "expected": want, "observed": got})
+            accepted.setdefault(c["path"], []).append((c, got, want))
+    for path, lst in accepted.items():
+        c, got, want = lst[0]
+        ctx.violation("foreign-object-accepted:%s" % path, "Object of another Runtime passed through %s was not rejected with TypeError (got %s) — %d object kinds: %s"
+                      % (path, got, len(lst), ",".join(x[0]["obj"] for x in lst)), {"kind": "input", "case": c, "expected": want, "observed": got})
+    for c, got, want in bad_prop:
+        foreign = (not c["same"]) and c["obj"] not in ("nilptr", "selfnil", "noruntime")
+        if foreign and got != "typeError":
+            continue
         else:
             ctx.obligation("corr:toValue-oracle:%s:%s:%s" % (c["obj"], c["path"], c["same"]), "correspondence", False, "impl=%s oracle=%s" % (got, want))
 
@@ -768,6 +802,12 @@ def main(ctx):
         # drf claim cross-check on the oracle: no `once` schedule without raw clients may race
         bad_drf = [memo_lines[j] for j in range(len(memo_lines)) if memo_lines[j].startswith("memo once") and ":w" not in memo_lines[j] and memo_want[j].startswith("raced=1")]
         ctx.obligation("corr:oracle-agrees-with-memo_drf", "correspondence", not bad_drf, "; ".join(bad_drf[:2]))
+
+    # 4d. Go runtime fatal errors (concurrent map access …) while sharing: a violation with the running case as replay
+    for f in fatals[:3]:
+        gi = f["gcase"]
+        ctx.violation("go-fatal:" + f["msg"], "the Go runtime aborted while a Program / values were shared between goroutines: " + f["msg"],
+                      {"kind": "schedule", "case": cases[gi], "report": f["text"]})
 
     # 5. result differences are property violations outright
     for i, sig, a in result_viol[:5]:
@@ -866,6 +906,21 @@ def replay(ctx, path):
         return 2
     proto = proto_from_generated()
     seen = False
+    if c.get("kind") == "foreign":
+        rc, out, err = run_harness(ctx, exe, [c], 300)
+        print("implementation answer:", (out[0] if out else "<none>")[:500])
+        want = tv_oracle(c["obj"], c["same"])
+        try:
+            got = json.loads(out[0]).get("res")
+        except (ValueError, IndexError):
+            got = None
+        print("expected (property):", want)
+        model = ctx.model_exe()
+        if os.path.exists(model):
+            rc, mout, _ = ctx.run_lines([model], [tv_line(c["obj"], c["same"])])
+            print("model:", mout[:1])
+        print("REPRODUCED" if got != want else "not reproduced")
+        return 1 if got != want else 0
     for k in range(5):
         rc, out, err = run_harness(ctx, exe, [c], 300)
         print("implementation answer:", (out[0] if out else "<none>")[:2000])
@@ -881,12 +936,6 @@ def replay(ctx, path):
             pass
         if seen:
             break
-    if c.get("kind") == "foreign":
-        print("expected (property):", tv_oracle(c["obj"], c["same"]))
-        model = ctx.model_exe()
-        if os.path.exists(model):
-            rc, out, _ = ctx.run_lines([model], [tv_line(c["obj"], c["same"])])
-            print("model:", out[:1])
-        seen = seen or (rep.get("observed") is not None)
     print("expected:", rep.get("expected", "no race report; every goroutine's result equals the isolated result"))
+    print("REPRODUCED" if seen else "not reproduced in 5 runs")
     return 1 if seen else 0
